@@ -16,9 +16,13 @@ import (
 	"verif/checks/c16"
 	"verif/checks/c17"
 	"verif/checks/c18"
+	"verif/checks/c19"
+	"verif/checks/c20"
 )
 
 func init() {
+	register("C19", "model_checking", c19.Run)
+	register("C20", "exploration", c20.Run)
 	register("C18", "exploration", c18.Run)
 	register("C15", "model_checking", c15.Run)
 	register("C10", "exploration", c10.Run)
